@@ -54,6 +54,7 @@ pred WinHit(w Window, col int, row int) =
    && (w.Parent == nil || inClip(w.Parent, col + w.Column, row + w.Row))
 
 func (win Window) SetCell(col int, row int, cell Cell)
+  unfold absX, absY, inClip, rootScr, chainOK
   requires ok: WinOK(win)
   ensures C11_place: (WinHit(win, col, row)
                         && 0 <= WinX(win, col) && WinX(win, col) < WinScr(win).cols
@@ -65,6 +66,7 @@ func (win Window) SetCell(col int, row int, cell Cell)
   modifies allelems(WinScr(win).buf[0])
 
 func (win Window) SetStyle(col int, row int, style Style)
+  unfold absX, absY, inClip, rootScr, chainOK
   requires ok: WinOK(win)
   ensures C11_place: (WinHit(win, col, row)
                         && 0 <= WinX(win, col) && WinX(win, col) < WinScr(win).cols
@@ -83,7 +85,6 @@ pred OutsideKept(w Window) =
         !Covers(w, c, r) ==> WinScr(w).buf[r][c] == old(WinScr(w).buf[r][c])
 
 func (win Window) Fill(cell Cell)
-  unfold none
   requires ok: WinOK(win)
   requires vx: win.Vx != nil && ref(win.Vx.charCache) != 0
   ensures C11_contain: OutsideKept(win)
@@ -91,7 +92,6 @@ func (win Window) Fill(cell Cell)
   loop 2 invariant keep: OutsideKept(win)
 
 func (win Window) Print(segs ...Segment) (col int, row int)
-  unfold none
   requires ok: WinOK(win)
   requires vx: win.Vx != nil && ref(win.Vx.charCache) != 0
   ensures C11_contain: OutsideKept(win)
@@ -99,7 +99,6 @@ func (win Window) Print(segs ...Segment) (col int, row int)
   loop 2 invariant keep: OutsideKept(win)
 
 func (win Window) PrintTruncate(row int, segs ...Segment)
-  unfold none
   requires ok: WinOK(win)
   requires vx: win.Vx != nil && ref(win.Vx.charCache) != 0
   ensures C11_contain: OutsideKept(win)
@@ -107,7 +106,6 @@ func (win Window) PrintTruncate(row int, segs ...Segment)
   loop 2 invariant keep: OutsideKept(win)
 
 func (win Window) Println(row int, segs ...Segment)
-  unfold none
   requires ok: WinOK(win)
   requires vx: win.Vx != nil && ref(win.Vx.charCache) != 0
   ensures C11_contain: OutsideKept(win)
@@ -115,7 +113,6 @@ func (win Window) Println(row int, segs ...Segment)
   loop 2 invariant keep: OutsideKept(win)
 
 func (win Window) Wrap(segs ...Segment) (col int, row int)
-  unfold none
   requires ok: WinOK(win)
   requires vx: win.Vx != nil && ref(win.Vx.charCache) != 0
   ensures C11_contain: OutsideKept(win)
